@@ -209,6 +209,15 @@ AtomicOnDisk == Active => /\ Exists(Conf)
                           /\ \/ Content(Conf) = w.old
                              \/ Content(Conf) = w.new
 
+\* write(2) is one action above, but it is not atomic against a crash: while it runs on the inode
+\* the name refers to, a prefix of d may be all that reached the file.  Three such cuts are judged
+\* (after the first byte, in the middle, before the last byte); to be evaluated BEFORE the write.
+Cuts(d) == {n \in {1, Len(d) \div 2, Len(d) - 1} : 0 < n /\ n < Len(d)}
+WriteTornOK(fd, p, d) ==
+  (Active /\ Exists(Conf) /\ fd \in DOMAIN fdt /\ fdt[fd].ino = dir[Conf] /\ p <= Len(Content(Conf))) =>
+     \A n \in Cuts(d) : LET c2 == Overwrite(Content(Conf), p, SubSeq(d, 1, n))
+                        IN c2 = w.old \/ c2 = w.new
+
 \* a finished write-back installed the intended content
 WriteInstalls == w.pc = "done" => (Exists(Conf) /\ Content(Conf) = w.new)
 =============================================================================
